@@ -41,20 +41,24 @@ Extra(e) ==
       [] e.op = "xform_lerp" -> /\ SlerpDefined(e.b, e.m, e.t[1], e.t[2]) /\ (e.bb.q = SlerpEnd(e.from, e.axis, e.b, e.m) \/ e.bb.q = VNeg(SlerpEnd(e.from, e.axis, e.b, e.m)))
                                 /\ e.a.q = e.from /\ FOfQ(e.tq) = FDiv(FI(e.t[1]), FI(e.t[2]))
       [] OTHER -> TRUE
-Conforms(e) == e.pan = 0 /\ e.obs = Expected(e) /\ Extra(e)
+\* floats (plain integers: (|q|^2 - 1) * 2^44 for f64, * 2^20 for f32): slerp / nlerp of two unit quaternions is a unit quaternion to
+\* rounding accuracy, for every angle between the operands (nearly parallel pairs included) and every factor
+SlerpFOk(e) == IF e.ty = "f64" THEN e.obs \in -4096 .. 4096 ELSE e.obs \in -16 .. 16
+Conforms(e) == e.pan = 0 /\ (IF e.op = "slerp_f" THEN SlerpFOk(e) ELSE e.obs = Expected(e) /\ Extra(e))
 
 Init == l = 1
 Step(name) ==
     /\ l <= Len(Rec) /\ Rec[l].op = name
     /\ IF Conforms(Rec[l]) THEN TRUE
-       ELSE PrintT(ToJson([tag |-> "MISMATCH", l |-> l, exp |-> Expected(Rec[l])]))
+       ELSE PrintT(ToJson([tag |-> "MISMATCH", l |-> l, exp |-> IF name = "slerp_f" THEN 0 ELSE Expected(Rec[l])]))
     /\ l' = l + 1
 LerpA == Step("lerp")
 Transition == Step("transition")
 NLerp == Step("nlerp")
 SlerpA == Step("slerp")
 XformLerp == Step("xform_lerp")
-Next == LerpA \/ Transition \/ NLerp \/ SlerpA \/ XformLerp
+SlerpF == Step("slerp_f")
+Next == LerpA \/ Transition \/ NLerp \/ SlerpA \/ XformLerp \/ SlerpF
 Accepted == IF TLCGet("stats").diameter - 1 = Len(Rec) THEN TRUE
             ELSE PrintT(ToJson([tag |-> "REJECTED_AT", l |-> TLCGet("stats").diameter])) /\ FALSE
 =============================================================================
